@@ -24,8 +24,8 @@ import (
 //	d      the disrupting thread's script: up to two calls over the consumer
 //	       API the property names (PauseFetchPartitions/ResumeFetchPartitions
 //	       of t/0, PauseFetchTopics/ResumeFetchTopics of t) and environment
-//	       actions (leader move of t/1 + append, leader-epoch bump of t/0 +
-//	       append, all fetch connections dropped, fetch sessions evicted), each
+//	       actions (leader move of t/1 + append, leader-epoch bump of t/0,
+//	       all fetch connections dropped, fetch sessions evicted), each
 //	       bound to a gate g = "after the g-th call of T1" (g=0: before the
 //	       first). D is declared first, so on the default schedule its calls
 //	       run as soon as their gate opens.
@@ -55,7 +55,7 @@ var gcfgs = []gcfg{
 	{name: "rc-split", v: variant{rc: true, partBytes: 200}},
 	{name: "mcf1", opts: []kgo.Opt{kgo.MaxConcurrentFetches(1)}},
 	{name: "onesrc", v: variant{oneSource: true}},
-	{name: "parts-keeperr", v: variant{starts: map[int32]int64{0: 2, 1: 6}}, opts: []kgo.Opt{kgo.KeepRetryableFetchErrors()}},
+	{name: "parts-split-keeperr", v: variant{starts: map[int32]int64{0: 2, 1: 6}, partBytes: 200}, opts: []kgo.Opt{kgo.KeepRetryableFetchErrors()}},
 	// thorough only:
 	{name: "meta2s", v: variant{metaAge: 2 * time.Second}},
 	{name: "onesrc-split-rc", v: variant{oneSource: true, rc: true, partBytes: 200}},
@@ -75,8 +75,8 @@ var thinks = []think{
 
 // D calls: a PauseFetchPartitions(t/0), A ResumeFetchPartitions(t/0),
 // t PauseFetchTopics(t), T ResumeFetchTopics(t), m leader move of t/1 to the
-// other broker + one append, e leader-epoch bump of t/0 (same leader) + one
-// append, x every fetch connection of the consumer dropped, s the next
+// other broker + one append, e leader-epoch bump of t/0 (same leader, nothing
+// appended), x every fetch connection of the consumer dropped, s the next
 // incremental Fetch on each broker answered FETCH_SESSION_ID_NOT_FOUND.
 const dops = "aAtTmexs"
 
@@ -174,8 +174,7 @@ func (st *state) do(t *netctl.Thread, op byte) {
 		st.appendAfterMove(1)
 	case 'e':
 		t.Step("bump-epoch-t0")
-		c.MoveTopicPartition(topic, 0, c.LeaderFor(topic, 0))
-		st.appendAfterMove(0)
+		c.MoveTopicPartition(topic, 0, c.LeaderFor(topic, 0)) // same leader, epoch+1, nothing appended
 	case 'x':
 		t.Step("drop-fetch-conns")
 		for _, conn := range x.Conns() {
